@@ -160,6 +160,118 @@ def run(ctx):
     for cname, clause in failing:
         probe_clause(ctx, gen, cname, clause)
     ctx.exhaustive.append("every concrete class x every declared child; every class x every exclusivity group")
+    witness_probe(ctx, gen, classes)
+
+
+# ---------------------------------------------------------------- constructibility witness (EXT-C13)
+# The model's specification `Spec/Witness.lean: mkWith` gives, for every class and declared child, a *description* of
+# a call `Cls(*args, **kwargs)` (canonical values, required children filled in recursively, the exactly-one groups and
+# the hand-coded validate_args rules satisfied) and the theorem `Gen.C13_generated_constructible` says the model's
+# constructors accept it and the instance holds the child, is written with the child under its tag and is read back.
+# Here the very same description is run through the REAL constructors and the real writer / reader.
+def _py_value(n, M, UTC):
+    import datetime
+    import decimal
+    from proto import dstr
+    if n == "none":
+        return None
+    k = n[0]
+    if k == "b":
+        return n[1] == "T"
+    if k == "i":
+        return int(n[1])
+    if k == "s":
+        return dstr(n[1])
+    if k == "d":
+        digits = tuple(int(ch) for ch in n[2])
+        return decimal.Decimal((1 if n[1] == "T" else 0, digits, int(n[3])))
+    if k == "dt":
+        assert n[8] != "none" and int(n[8][1][1]) == 0, n        # the canonical values are in UTC
+        return datetime.datetime(int(n[1]), int(n[2]), int(n[3]), int(n[4]), int(n[5]), int(n[6]), int(n[7]), tzinfo=UTC)
+    if k == "tm":
+        assert n[5] != "none" and int(n[5][1][1]) == 0, n
+        return datetime.time(int(n[1]), int(n[2]), int(n[3]), int(n[4]), tzinfo=UTC)
+    if k == "inst":
+        return _py_build(n, M, UTC)
+    raise ValueError(f"unexpected value in a description: {n!r}")
+
+
+def _py_build(desc, M, UTC, names=None):
+    """description (inst idx ((name value)…) (member…)) -> the real `Cls(*members, **kwargs)`, bottom-up"""
+    from proto import dstr
+    names = names or _py_build.names
+    cls = getattr(M, names[int(desc[1])])
+    kwargs = {dstr(kv[0]): _py_value(kv[1], M, UTC) for kv in desc[2]}
+    args = [_py_value(m, M, UTC) for m in desc[3]]
+    return cls(*args, **kwargs)
+
+
+def witness_probe(ctx, gen, classes):
+    from ofxtools.models.base import Aggregate
+    from proto import S as hexs, dstr
+    M, UTC = gen.M, gen.UTC
+    _py_build.names = {c["idx"]: c["name"] for c in ctx.schema["classes"]}
+    pairs, lines = [], []
+    for c in classes:
+        for a in c["spec"]:
+            if a["k"] == "unsupported":
+                continue
+            pairs.append((c, a))
+            lines.append(f"witness.with {c['idx']} {hexs(a['name'])}")
+    # the obligation's own enumeration of (class, child) pairs is the one used here
+    rep = ctx.model.ask1("witness.pairs")
+    mine = [[str(c["idx"]), hexs(a["name"])] for c, a in pairs]
+    ctx.compare("witness.pairs", {"n": len(mine)}, mine, rep.vals[0] if rep.ok else ["bad", rep.raw])
+    replies = ctx.model.ask(lines)
+    for (c, a), rep in zip(pairs, replies):
+        name, attr = c["name"], a["name"]
+        case = {"cls": name, "child": attr, "kind": a["k"], "via": "witness"}
+        if not rep.ok or rep.vals[0] == "none":
+            ctx.evaluations += 1
+            ctx.disagree("witness.with", case, ["description expected"], ["none", rep.raw[:200]])
+            continue
+        desc = rep.vals[0][1]
+        built = rep.vals[1]
+        r = quiet(_py_build, desc, M, UTC)
+        impl = ["ok", canon_inst(r[1])] if r[0] == "ok" else ["err"]
+        model = ["ok", built[1]] if built[0] == "ok" else ["err"]
+        ctx.stat("witness:" + impl[0])
+        ctx.compare("witness.with", case, impl, model)
+        if r[0] != "ok":
+            ctx.violate("child_cannot_be_constructed", case,
+                        f"{name}.{attr}: the canonical description holding this child is rejected by the constructors ({r[1]})",
+                        {"cls": name, "attr": attr})
+            continue
+        inst = r[1]
+        if not _holds(inst, a):
+            ctx.violate("child_not_held", case, f"{name}.{attr}: the constructed instance does not hold the child",
+                        {"cls": name, "attr": attr})
+            continue
+        r_tree = quiet(inst.to_etree)
+        if r_tree[0] != "ok":
+            ctx.violate("child_cannot_be_written", case, f"{name}.{attr}: to_etree raised", {"cls": name, "attr": attr})
+            continue
+        tree = r_tree[1]
+        want_tag = a["clsname"] if a["k"] in ("listagg", "sub") else attr.upper()
+        if c.get("ungroom") and want_tag == c["ungroom"][0]:
+            want_tag = c["ungroom"][1]
+        if not any(ch.tag == want_tag for ch in tree):
+            ctx.violate("child_not_written_under_its_tag", case,
+                        f"{name}.{attr}: no <{want_tag}> child in {[ch.tag for ch in tree]}", {"cls": name, "attr": attr})
+        r_back = quiet(Aggregate.from_etree, copy.deepcopy(tree))
+        if r_back[0] != "ok":
+            ctx.violate("child_not_read_back", case, f"{name}.{attr}: the library's reader rejects what its writer wrote",
+                        {"cls": blame_class(inst), "attr": attr})
+        elif canon_inst(r_back[1]) != canon_inst(inst):
+            back = r_back[1]
+            if a["k"] in ("listagg", "listelem"):
+                lost = len(list(list.__iter__(back))) != len(list(list.__iter__(inst)))
+            else:
+                lost = back.__dict__.get(attr) is None
+            ctx.violate("child_silently_skipped" if lost else "readback_differs", case,
+                        f"{name}.{attr}: read-back model differs from the original", {"cls": name, "attr": attr})
+    ctx.exhaustive.append("every concrete class x every declared child: the model's canonical description (Witness.mkWith) "
+                          "through the real constructors, writer and reader")
 
 
 def probe_clause(ctx, gen, cname, clause):
